@@ -3,7 +3,7 @@
 import json, os, glob
 root = os.path.dirname(os.path.dirname(os.path.abspath(__file__)))
 rows = []
-for d in sorted(glob.glob(os.path.join(root, "seeded", "*"))):
+for d in sorted(x for x in glob.glob(os.path.join(root, "seeded", "*")) if os.path.isdir(x)):
     m = json.load(open(os.path.join(d, "meta.json")))
     res = {}
     for f in glob.glob(os.path.join(d, "result_*.json")):
